@@ -87,6 +87,23 @@ theorem C10_relay_chain (parseOk : Addr → Bool) (n : Nat) (l : Listeners)
 example : relayChain (fun _ => true) 3 Sock.empty { http := [([49, 50, 55], 7)], udp := [([49], 4)] }
     = some ({ http := [([49, 50, 55], 7)], udp := [([49], 4)] }, Sock.empty) := by decide
 
+/-- **The receiver never pairs beyond what arrived**, whatever the peer wrote on
+    the socket (any manifest, any number of descriptors, any address texts —
+    `sendRaw`): a successful receive yields at most MAX_FDS_OUT listeners, no more
+    than descriptors delivered, pairs the addresses with the first descriptors in
+    order (no descriptor used twice, none invented), and every address parsed. -/
+theorem C10_recv_pairs_within_fds (parseOk : Addr → Bool) (s s' : Sock) (l : Listeners)
+    (h : recv parseOk s = (s', .recvOk l)) :
+    l.count ≤ Consts.scmMaxFdsOut ∧ l.count ≤ s.fds.length ∧
+    l.fds = (s.fds.take Consts.scmMaxFdsOut).take l.count ∧ (∀ a ∈ l.addrs, parseOk a = true) :=
+  c10_recv_pairs_within_fds parseOk s s' l h
+
+example :
+    (recv (fun _ => true) (sendRaw Sock.empty { http := [[49], [50]] } [7]).1).2 = .recvErr .count ∧
+    (recv (fun a => a != [50]) (sendRaw Sock.empty { http := [[49], [50]] } [7, 8]).1).2 = .recvErr .addr ∧
+    (recv (fun _ => true) (sendRaw Sock.empty { http := [[49]], udp := [[50]] } [7, 8, 9]).1).2
+      = .recvOk { http := [([49], 7)], udp := [([50], 8)] } := by decide
+
 namespace SoftStop
 /-- **Exactly one acknowledgement.** Whatever the sequence of SoftStop requests,
     event-loop ticks, connection attempts, listener additions / removals and
